@@ -15,10 +15,28 @@ impl Hasher for Cap {
     }
 }
 
-pub fn raw_hash(s: &GameState) -> u64 {
+/// what `impl Hash for GameState` feeds the hasher
+pub fn hash_impl_word(s: &GameState) -> u64 {
     let mut c = Cap(0);
     s.hash(&mut c);
     c.0
+}
+
+/// The raw board-state hash of a state, recovered from `transposition_hash()` by removing the
+/// status contribution (computed with the crate's own status tables on the initial Zobrist value).
+/// Independent of `impl Hash`, which the C08 oracle compares with it.
+pub fn raw_hash(s: &GameState) -> u64 {
+    match s.as_play_phase() {
+        None => guard(|| s.transposition_hash()).unwrap_or_else(|| hash_impl_word(s)),
+        Some(pp) => {
+            let pps = pp.push_pull_state();
+            let r = guard(|| {
+                let z = Zobrist::initial();
+                s.transposition_hash() ^ z.board_state_hash_with_push_pull_state(pps) ^ z.board_state_hash()
+            });
+            r.unwrap_or_else(|| hash_impl_word(s))
+        }
+    }
 }
 
 pub type Words = [u64; 8];
